@@ -145,6 +145,8 @@ impl SampleQueueSender {
 
 impl Drop for SampleQueueSender {
     fn drop(&mut self) {
+        #[cfg(rustrtc_verif)]
+        crate::media::verif_sched::point("pipeline.drop.before_close");
         self.closed
             .store(true, std::sync::atomic::Ordering::Release);
         self.notify.notify_waiters();
@@ -159,6 +161,8 @@ impl SampleQueueReceiver {
                 if let Some(sample) = self.queue.pop() {
                     return Some(sample);
                 }
+                #[cfg(rustrtc_verif)]
+                crate::media::verif_sched::point("pipeline.recv.after_empty_pop");
                 if self.closed.load(std::sync::atomic::Ordering::Acquire) {
                     return None;
                 }
